@@ -46,9 +46,9 @@ func (v mapSliceValue) IndexValue(index Value) Value {
 }
 
 func (v mapSliceValue) PropertyValue(index Value) Value {
-	result := v.IndexValue(index)
-	if result == nilValue && index.Interface() == sizeKey {
-		result = ValueOf(len(v.slice))
+	// size is the number of entries unless the map has a key of that name - also one bound to nil, as for a map
+	if index.Interface() == sizeKey && !v.Contains(index) {
+		return ValueOf(len(v.slice))
 	}
-	return result
+	return v.IndexValue(index)
 }
